@@ -804,7 +804,119 @@ def h6_r6hash(pattern="cycle", timeout=300, extra=None, part=None, **kw):
                          timeout, concretize=conc, shims={"namespace_shims": shims + ["sha256/384/512, Cipher -> uninterpreted functions"]}, int_lo=0, int_hi=2, part=part)
 
 
+# ------------------------------------------------------------------------------------------ H7 really encrypted documents, opened in call histories
+DOC_PAIRS = [("", ""), ("user", "owner"), ("", "own"), ("u" * 40, "\u00e9w")]
+DOC_PS = [-44, -3904, -1, -64]
+DOC_HISTORIES = ["alone", "then-other", "then-other-rejected", "other-first"]
+DOC_TEXT = "Hello"
+
+
+def _doc_objects(tag):
+    from lib.pdfgen import Ref, Stream
+    return {1: {"Type": "Catalog", "Pages": Ref(2), "Lang": b"lang-" + tag, "Metadata": Ref(6), "Extra": [b"in (an) array", {"K": b"in a \\ dict"}]},
+            2: {"Type": "Pages", "Kids": [Ref(4)], "Count": 1}, 3: {"Type": "Font", "Subtype": "Type1", "BaseFont": "Helvetica"},
+            4: {"Type": "Page", "Parent": Ref(2), "MediaBox": [0, 0, 200, 200], "Contents": Ref(5), "Resources": {"Font": {"F1": Ref(3)}}},
+            5: Stream({}, b"BT /F1 10 Tf 10 100 Td (" + DOC_TEXT.encode() + b" " + tag + b") Tj ET"),
+            6: Stream({"Type": "Metadata", "Subtype": "XML"}, b"<x:xmpmeta>" + tag + b"</x:xmpmeta>"),
+            300: Stream({}, b"stream of object 300 " + tag)}
+
+
+def _pw_bytes(rev, pw):
+    return pw.encode("utf-8") if rev >= 5 else pw.encode("latin-1")
+
+
+def _docs_check(sel):
+    """a document encrypted by the reference encryptor (lib/pdfenc.py, written from ISO 32000-1 7.6 / 32000-2 7.6.4) is opened with the user or the owner password - alone, before or after another
+    encrypted document is opened (or rejected) in the same process - and every string, stream, the extracted text and the permission flags are those of the plain original; reading twice gives the same"""
+    import io
+    from lib import pdfenc
+    from pdfminer.pdfparser import PDFParser
+    from pdfminer.pdfdocument import PDFDocument, PDFPasswordIncorrect
+    from pdfminer.pdftypes import resolve1
+    from pdfminer.high_level import extract_text
+    scheme, other = pdfenc.SCHEMES[sel["scheme"]], pdfenc.SCHEMES[sel["other"]]
+    upw, opw = DOC_PAIRS[sel["pair"]]
+    P, em, caching, hist = DOC_PS[sel["P"]], bool(sel["em"]), bool(sel["caching"]), DOC_HISTORIES[sel["history"]]
+    encA = pdfenc.Encryptor(scheme, *[_pw_bytes(2 if scheme < "v5" else 5, x) for x in (upw, opw)], P=P, encrypt_metadata=em)
+    plain = _doc_objects(b"A")
+    dataA = encA.document(plain)
+    encB = pdfenc.Encryptor(other, b"bu", b"bo", docid=b"another-doc-id..", filekey=bytes(range(7, 39)))
+    dataB = encB.document(_doc_objects(b"B"))
+    pw = opw if sel["opener"] else upw
+    desc = "%s document (user %r, owner %r, P=%d, EncryptMetadata=%s) opened with the %s password, caching=%s, history %s (other document: %s)" % (
+        scheme, upw, opw, P, em, "owner" if sel["opener"] else "user", caching, hist, other)
+
+    def open_b(password):
+        try:
+            d = PDFDocument(PDFParser(io.BytesIO(dataB)), password, caching=caching)
+            d.getobj(1)
+            return d
+        except PDFPasswordIncorrect:
+            return None
+    try:
+        if hist == "other-first":
+            open_b("bu")
+        doc = PDFDocument(PDFParser(io.BytesIO(dataA)), pw, caching=caching)
+        if hist == "then-other":
+            open_b("bo")
+        elif hist == "then-other-rejected":
+            if open_b("not the password") is not None:
+                return "%s: the other document accepted a wrong password" % desc
+        for rnd in (1, 2):
+            cat = doc.getobj(1)
+            got = (cat["Lang"], resolve1(cat["Extra"])[0], resolve1(cat["Extra"])[1]["K"], doc.getobj(5).get_data(), doc.getobj(6).get_data(), doc.getobj(300).get_data())
+            exp = (plain[1]["Lang"], plain[1]["Extra"][0], plain[1]["Extra"][1]["K"], plain[5].data, plain[6].data, plain[300].data)
+            if got != exp:
+                k = [i for i in range(len(exp)) if got[i] != exp[i]][0]
+                return "%s: reading %d: %s is %r, the original has %r" % (desc, rnd, ["the catalog string", "the string in an array", "the string in a nested dictionary", "the content stream", "the metadata stream", "stream 300"][k], got[k][:40], exp[k][:40])
+            if rnd == 1 and not caching:
+                for n in (5, 6, 300):                    # with caching off every getobj parses and deciphers again
+                    if doc.getobj(n).get_data() != plain[n].data:
+                        return "%s: stream %d read a second time differs from the original" % (desc, n)
+        flags = (doc.is_printable, doc.is_modifiable, doc.is_extractable)
+        if flags != (bool(P & 4), bool(P & 8), bool(P & 16)):
+            return "%s: permissions (print, modify, extract) reported as %r, P has %r" % (desc, flags, (bool(P & 4), bool(P & 8), bool(P & 16)))
+        if P & 16:
+            txt = extract_text(io.BytesIO(dataA), password=pw, caching=caching)
+            if txt.strip() != DOC_TEXT + " A":
+                return "%s: extracted text %r, the original shows %r" % (desc, txt, DOC_TEXT + " A")
+        for wrong in ("no", "x" + upw):
+            if wrong not in (upw, opw):
+                try:
+                    PDFDocument(PDFParser(io.BytesIO(dataA)), wrong, caching=caching)
+                    return "%s: the password %r was accepted" % (desc, wrong)
+                except PDFPasswordIncorrect:
+                    pass
+    except Exception as e:
+        return "%s: raised %s: %s" % (desc, type(e).__name__, e)
+    return None
+
+
+def h7_docs(timeout=300, part=None, **kw):
+    import pdfminer.pdfdocument as pd
+    from lib import pdfenc
+
+    def fn(ex):
+        sel = {"scheme": ex.choice(len(pdfenc.SCHEMES), "scheme"), "pair": ex.choice(len(DOC_PAIRS), "pair"), "opener": ex.choice(2, "opener"), "history": ex.choice(len(DOC_HISTORIES), "history"),
+               "caching": ex.choice(2, "caching")}
+        sel["other"] = ex.choice(len(pdfenc.SCHEMES), "other") if sel["history"] else sel["scheme"]
+        sel["em"] = ex.choice(2, "em") if sel["scheme"] >= 2 else 1
+        sel["P"] = ex.choice(len(DOC_PS), "P") if (sel["history"] == 0 and sel["pair"] == 1) else 0
+        r = _docs_check(sel)
+        ex.require(r is None, r or "", sel=sel)
+
+    def conc(m, info):
+        return info
+    H = pd.PDFStandardSecurityHandler
+    return core.run_symx("H7_docs", fn, [pd.PDFDocument._initialize_password, H.init_params, H.authenticate, H.decrypt, pd.PDFStandardSecurityHandlerV4.init_params, pd.PDFStandardSecurityHandlerV4.decrypt,
+                                         pd.PDFStandardSecurityHandlerV5.authenticate, pd.PDFDocument.getobj],
+                         {"document": "7 objects incl. strings at three nesting levels, a Metadata stream and object number 300; schemes %r" % (pdfenc.SCHEMES,), "passwords": DOC_PAIRS, "P": DOC_PS,
+                          "histories": DOC_HISTORIES, "caching": "on/off", "primitives": "real (hashlib, cryptography, Arcfour)"}, timeout, concretize=conc, part=part)
+
+
 def replay(harness, inp):
+    if harness == "H7_docs":
+        return _docs_check(inp["sel"])
     import pdfminer.pdfdocument as pd
     if harness == "H1_permissions":
         P = inp["P"]
@@ -986,6 +1098,8 @@ def jobs(tier):
               Job("H6_r5:R6:long", "h6_r5", {"rev": 6, "concrete": True}, 300, "H6_r5")] + \
              [Job("H6_r6hash:%s:%d" % (pt, k), "h6_r6hash", {"pattern": pt, "extra": 4, "part": [k, 2, 3]}, 1800, "H6_r6hash") for pt in sorted(R6_PATTERNS) for k in range(2)]
     J = KD + [Job("H1_permissions", "h1_permissions", {}, 60), Job("H2_where", "h2_where", {}, 150), Job("H4_keys", "h4_keys", {}, 150), Job("H5_metadata", "h5_metadata", {}, 60)]
+    for k in range(4):
+        J.append(Job("H7_docs:%d" % k, "h7_docs", {"part": [k, 4, 4]}, 300, "H7_docs"))
     for k in range(2):
         J.append(Job("H3_padding:%d" % k, "h3_padding", {"part": [k, 2, 5]}, 200, "H3_padding"))
     # H4_rc4 (RC4 twice = identity on symbolic data) is not registered: the XOR of two symbolic bytes does not get a solver verdict within
